@@ -10,3 +10,4 @@ def run(ck):
     image.r3_early_returns(ck, P)
     tables.r4_cache_key(ck, P)
     image.r5_alpha_count(ck, P)
+    image.r_validated_before_use(ck, P, 'C14-R7')
